@@ -5,6 +5,7 @@ unchanged.  Model: `Codec.enc`/`Codec.dec` (+ `Packet` mutators); spec:
 -/
 import CoapLite.Lemmas.CodecFwd
 import CoapLite.Lemmas.Builder
+import CoapLite.Lemmas.BuilderWF
 import CoapLite.Lemmas.Shape.Packet
 import CoapLite.Lemmas.Shape.Global
 
@@ -200,6 +201,22 @@ def ex1 : Packet :=
 
 example : PktWF ex1 := by decide
 example : (toMsg ex1).opts = [(11, [0x62]), (258, [0x1a])] := by decide
+
+/-- "every message assembled through the public API" meets the hypothesis of `enc_eq_wire` / `dec_enc`:
+for any successful sequence of API calls (Model/Builder.lean: header setters, `set_token`, `add_option`,
+`set_option`, `clear_option`, `clear_all_options`, code, message id, payload – in any order) whose
+last-set values are of the API's own types (token ≤ 8 bytes with the header's length nibble agreeing
+with it, `u16` message id and option numbers, a code with a byte, values that fit the 16-bit
+extended length), the assembled message is `PktWF`. -/
+theorem assembled_messages_are_well_formed (ops : List Builder.BOp) (p : Packet)
+    (h : Builder.build ops = .ok p)
+    (htok : (Builder.refTok ops.reverse).length ≤ 8)
+    (htkl : Builder.refTkl ops.reverse = (Builder.refTok ops.reverse).length)
+    (hmid : Builder.refMid ops.reverse < 65536)
+    (hcode : MessageClass.toU8 (Builder.refCode ops.reverse) < 256)
+    (hopts : ∀ n vs, Builder.refOpts ops.reverse n = some vs → n ≤ 65535 ∧ ∀ v ∈ vs, v.length ≤ 65804) :
+    PktWF p :=
+  Builder.build_wf ops p h htok htkl hmid hcode hopts
 
 /-! ### tie to the source: the state the model carries is the state the code carries
 
